@@ -133,11 +133,12 @@ BOUNDS = {
 }
 
 
-def svmc_args(tier, focus, faults, fault_kinds=0, witnesses=1, **over):
+def svmc_args(tier, focus, faults, fault_kinds=0, witnesses=1, unq=0, **over):
     b = dict(BOUNDS[tier])
     b.update(over)
     return ["--S", b["S"], "--K", b["K"], "--L", b["L"], "--R", b["R"], "--faults", faults,
-            "--fault-kinds", fault_kinds, "--focus", focus, "--witnesses", witnesses, "--deadline", b["deadline"]]
+            "--fault-kinds", fault_kinds, "--focus", focus, "--witnesses", witnesses, "--unq-depth", unq,
+            "--deadline", b["deadline"]]
 
 
 def w1_jobs(tier, configs, focus, faults, **over):
@@ -173,7 +174,7 @@ def run_svmc(prop, tier, jobs, level="model_checking", extra_assumptions=()):
 
     tot = {"states": 0, "transitions": 0, "fault_trials": 0, "dbl_fault_trials": 0,
            "boundary_edges": 0, "replays": 0, "distinct_outcomes": 0, "crashes": 0,
-           "skipped_crash_class": 0, "witnesses_checked": 0, "post_fault_states": 0}
+           "skipped_crash_class": 0, "witnesses_checked": 0, "post_fault_states": 0, "unq_histories": 0}
     exhaustive = True
     samples = []
     mine, others = [], {}
@@ -251,6 +252,7 @@ def run_svmc(prop, tier, jobs, level="model_checking", extra_assumptions=()):
         "distinct_outcomes": tot["distinct_outcomes"],
         "post_fault_witnesses_expanded": tot["post_fault_states"],
         "history_independence_comparisons": tot["witnesses_checked"],
+        "unquotiented_histories": tot["unq_histories"],
         "crashed_trials": tot["crashes"],
         "trials_skipped_same_crash_class": tot["skipped_crash_class"],
         "configurations": configs,
@@ -279,7 +281,9 @@ def run_svmc(prop, tier, jobs, level="model_checking", extra_assumptions=()):
 def plan_C01(prop, tier):
     fl = ("NM", "MO", "TR") if tier == "quick" else ("NM", "TM", "MO", "CO", "TR", "INT")
     cfgs = grid(fl, W1_NS[tier], (1,)) + grid(("NM",), (0, 2), (0,))
-    jobs = w1_jobs(tier, cfgs, G_ALL, 0)
+    # un-quotiented cross-check of the (size, capacity) abstraction: all histories up to depth 4
+    # (thorough: 5) over a reduced alphabet, without state merging, against the quotient graph
+    jobs = w1_jobs(tier, cfgs, G_ALL, 0, unq=4 if tier == "quick" else 5)
     jobs += w2_jobs(tier, ("NM", "TR"), W2_PAIRS[tier], (-1, 0, 7), 0)
     jobs += w2_jobs(tier, ("MO",), W2_PAIRS[tier], (0,), 0)
     if tier == "thorough":
